@@ -52,6 +52,20 @@ COVFAM = {'C01': (['add', 'sub', 'mul', 'div', 'sqrt'], 50000, 500000), 'C02': (
           'C15': (['add', 'sub', 'mul', 'div', 'sqrt', 'fma', 'rint*', 'modf', 'parse', 'fromstr*', 'to_*', 'quantize'], 30000, 300000)}
 for _k, (_pats, _nq, _nt) in COVFAM.items(): PROPS[_k]['streams'].append(('covfam', GC.gen_cov(_pats), _nq, _nt))
 
+
+def _as_ta(genf):
+    """the same cases through the build with the tininess-after-rounding feature (ops fma_ta / mul_ta, judged by expected_ta)"""
+    def gen(rng, n):
+        for l in genf(rng, n):
+            if l.startswith('fma '): yield 'fma_ta ' + l[4:]
+            elif l.startswith('mul '): yield 'mul_ta ' + l[4:]
+    return gen
+
+
+# C02, secondary configuration: besides the directed tiny_after stream, the ordinary fma families and the coverage families run through that build too
+# (the coverage measurement of the feature's cfg blocks, DESIGN section 22, showed 7 of their 59 lines reached only by those)
+PROPS['C02']['streams'] += [('fma_ta', _as_ta(G.gen_fma), 60000, 600000, dict(bin='ta')), ('covfam_ta', _as_ta(GC.gen_cov(['fma'])), 40000, 400000, dict(bin='ta'))]
+
 for _k, _v in TABLES.items(): PROPS[_k]['tables'] = _v
 
 # Intel's vectors (inputs only) as the first stream of every property whose operations they exercise
